@@ -10,16 +10,18 @@ import Cx.Proofs.OnePass
   winning path"), from the leftmost start position with any match.  It is the capture-carrying version of the C02/C14
   reference: its group 0 is exactly `btSearchAt` (C03_group0_is_the_match).
   Engines (transliterated in Cx/Model/Caps.lean and Cx/Model/OnePass.lean, tied to the real code on dumped NFAs in every
-  run of the C03 check):
+  run of the C03 check; code as of 729c212 / 4f5a457 / 2d44821):
     * Pike VM with per-state slot tables (`nfa/pikevm.go: SearchWithSlotTableCapturesAt`, `nfa/slot_table.go`):
-      equal to the reference for every NFA the compiler emits, every haystack and every start offset `at < len(h)`.
-      At `at = len(h)` the code returns group 0 only — proved to be exactly that (C03_pike_at_end_drops_groups), and
-      machine-checked to differ from the reference (`()` on ""), a defect reported by the check as a finding.
-    * one-pass DFA (`dfa/onepass`): the memoised builder, flat table and 64-bit transition word reduce to a run over NFA
-      roots; under explicit decidable hypotheses on the automaton the DFA returns the reference's slots whenever the
-      reference's match consumes the whole input.  The converse (every non-nil answer is the reference's) is FALSE for
-      the code as it stands: leftmost-first priority and look-around are ignored (witnesses below); the check compares
-      every non-nil answer of the real DFA with the reference.
+      equal to the reference for every NFA the compiler emits, every haystack and EVERY start offset `at ≤ len(h)`.
+      (`at = len(h)` used to go through `matchesEmptyAt` and return group 0 only — `()` on "" gave [0 0 -1 -1]; that
+      special case is gone from the code and from the model, see the `_fixed` example at the end.)
+    * one-pass DFA (`dfa/onepass`): guards (`IsAlwaysAnchored`, at most 16 groups, `hasUnsupportedLook`: no `\b`, `\B`,
+      `(?m)$`, no start look after a consumed byte, no byte after `\z`), builder (closure as a priority-ordered tree,
+      `matchWins` flags, one `(target, slots, matchWins)` per byte class, state 0 dead), flat table, 64-bit transition
+      word and `Search` (scratch slots, recorded match, match-wins return, end-only match states).  For every table the
+      builder produces, `Search` IS the anchored reference: same nil / non-nil, same slots, wherever the match ends
+      (C03_onepass_eq_reference).  The witnesses of the former deviations (lazy quantifier ignored, look-around
+      followed blindly, start state = dead state) now agree with the reference or are rejected by the build.
 -/
 namespace Cx.C03
 open Cx Cx.Nfa Cx.Caps
@@ -43,50 +45,67 @@ theorem C03_groups_unset_or_nested {N : NFA} {h : Bytes} {at_ n ng : Nat} {lab :
       (sl.getD 0 0 ≤ sl.getD (2*i) (-1) ∧ sl.getD (2*i) (-1) ≤ sl.getD (2*i+1) (-1) ∧ sl.getD (2*i+1) (-1) ≤ sl.getD 1 0) :=
   btCaps_groups hok hn hr
 
-/-- Pike VM with slot tables = reference, all inputs, all start offsets before the end (hypotheses as in C14: separate
-    unanchored start, disjoint sparse ranges, no rune states or ASCII haystack — decided per dumped NFA) -/
+/-- Pike VM with slot tables = reference, all inputs, all start offsets up to and including the end of the haystack
+    (hypotheses as in C14: separate unanchored start, disjoint sparse ranges, no rune states or ASCII haystack —
+    decided per dumped NFA) -/
 theorem C03_pike_captures_eq_reference {N : NFA} {h : Bytes} (hna : Pike.anchored N = false) (hd : Pike.SparseDisjoint N)
-    (hR : Pike.RuneOK N h) {at_ : Nat} (hat : at_ < h.size) {ng : Nat} {lab : Lab} (hok : labOK N ng lab = true)
+    (hR : Pike.RuneOK N h) {at_ : Nat} (hat : at_ ≤ h.size) {ng : Nat} {lab : Lab} (hok : labOK N ng lab = true)
     (hng : 1 ≤ ng) : pikeCaps N h at_ (2 * ng) = btCaps N h at_ (2 * ng) :=
   pikeCaps_eq_btCaps_groups hna hd hR hat hok hng
 
 /-- the same for start-anchored automata (`^…`) -/
 theorem C03_pike_captures_anchored {N : NFA} {h : Bytes} (ha : Pike.anchored N = true) (hd : Pike.SparseDisjoint N)
-    (hR : Pike.RuneOK N h) {at_ : Nat} (hat : at_ < h.size) (n : Nat) :
+    (hR : Pike.RuneOK N h) {at_ : Nat} (hat : at_ ≤ h.size) (n : Nat) :
     pikeCaps N h at_ n = (btCapsAnchored N h at_ n).map normCaps := pikeCaps_anchored_eq ha hd hR hat n
 
-/-- what the code does when the search starts at the end of the haystack: group 0 survives, every other group is
-    reported unset — NOT the reference (see `C03_pike_at_end_differs`) -/
-theorem C03_pike_at_end_drops_groups {N : NFA} {h : Bytes} (hna : Pike.anchored N = false) (hd : Pike.SparseDisjoint N)
-    (hR : Pike.RuneOK N h) (n : Nat) :
-    pikeCaps N h h.size n = (btCaps N h h.size n).map (fun sl => sl.take 2 ++ unset (n - 2)) := pikeCaps_at_end hna hd hR n
-
-/-- `()` on "": the reference (and regexp) report [0 0 0 0], the modelled code [0 0 -1 -1] -/
-theorem C03_pike_at_end_differs :
-    btCaps exEmptyGroup #[] 0 4 = some [0, 0, 0, 0] ∧ pikeCaps exEmptyGroup #[] 0 4 = some [0, 0, -1, -1] :=
-  ⟨ex_end_ref, ex_end_pike⟩
-
-/-- one-pass DFA: builder + table + search collapse to a run over NFA roots -/
+/-- one-pass DFA: builder + table + search collapse to a run over NFA roots (also for `SearchLongest`) -/
 theorem C03_onepass_is_a_run_over_the_nfa {N : NFA} {T : OnePass.Table} (hb : OnePass.build N = some T) (h : Bytes) (n : Nat) :
-    OnePass.search T h n = OnePass.arunSearch N h n := OnePass.search_eq_arun hb h n
+    OnePass.search T h n = OnePass.orunSearch N h n false ∧ OnePass.searchLongest T h n = OnePass.orunSearch N h n true :=
+  ⟨OnePass.search_eq_orun hb h n, OnePass.searchLongest_eq_orun hb h n⟩
 
-/-- one-pass DFA, completeness direction: whenever the anchored reference match consumes the whole input, the DFA returns
-    exactly its slots (hypotheses are decidable checks on the automaton, evaluated by the harness per pattern) -/
-theorem C03_onepass_complete_partial {N : NFA} {T : OnePass.Table} (hb : OnePass.build N = some T)
-    (hs : OnePass.strictRows N = true) (hnb : OnePass.noBackToStart N = true) (hc0 : OnePass.noCap0 N = true)
-    (hnr : noRuneB N = true) {n : Nat} (hn2 : 2 ≤ n) (hn : n ≤ 32) {h : Bytes} {sl : Slots}
-    (href : btCapsAnchored N h 0 n = some sl) (hend : sl.getD 1 0 = (h.size : Int)) : OnePass.search T h n = some sl :=
-  OnePass.onepass_eq_btCaps hb hs hnb hc0 hnr hn2 hn href hend
+/-- one-pass DFA = anchored reference, both directions at once: for every table that `Build` produces (`buildFor`
+    = `Build` with `n = 2 * CaptureCount`; its success carries all the guards), every haystack of bytes and every
+    `n ≥ 2`, `Search` answers nil iff the reference does and otherwise returns exactly the reference's slots —
+    wherever the match ends (leftmost-first priority, lazy quantifiers, `\z`/`$`, `\A`/`^`/`(?m)^` at offset 0). -/
+theorem C03_onepass_eq_reference {N : NFA} {T : OnePass.Table} {n : Nat} (hb : OnePass.buildFor N n = some T)
+    (hn2 : 2 ≤ n) {h : Bytes} (hbytes : ∀ i, h.at i < 256) : OnePass.search T h n = btCapsAnchored N h 0 n :=
+  OnePass.onepass_eq_btCaps hb hn2 hbytes
 
-/-- …and the soundness direction is false for the code as it stands: `(a+?)` on "aa" (lazy ignored), `(\b)` on ""
-    (look-around followed unconditionally) -/
-theorem C03_onepass_unsound_witnesses :
-    (OnePass.runOnePass OnePass.exLazy #[97, 97] 4 = some (some [0, 2, 0, 2]) ∧ btCapsAnchored OnePass.exLazy #[97, 97] 0 4 = some [0, 1, 0, 1]) ∧
-    (OnePass.runOnePass OnePass.exWordB #[] 4 = some (some [0, 0, 0, 0]) ∧ btCapsAnchored OnePass.exWordB #[] 0 4 = none) :=
-  ⟨⟨OnePass.ex_lazy_onepass, OnePass.ex_lazy_ref⟩, ⟨OnePass.ex_wordb_onepass, OnePass.ex_wordb_ref⟩⟩
+/-- soundness, spelled out -/
+theorem C03_onepass_sound {N : NFA} {T : OnePass.Table} {n : Nat} (hb : OnePass.buildFor N n = some T)
+    (hn2 : 2 ≤ n) {h : Bytes} (hbytes : ∀ i, h.at i < 256) {sl : Slots} (hs : OnePass.search T h n = some sl) :
+    btCapsAnchored N h 0 n = some sl := by rw [← OnePass.onepass_eq_btCaps hb hn2 hbytes]; exact hs
+
+/-- completeness, spelled out -/
+theorem C03_onepass_complete {N : NFA} {T : OnePass.Table} {n : Nat} (hb : OnePass.buildFor N n = some T)
+    (hn2 : 2 ≤ n) {h : Bytes} (hbytes : ∀ i, h.at i < 256) {sl : Slots} (hr : btCapsAnchored N h 0 n = some sl) :
+    OnePass.search T h n = some sl := by rw [OnePass.onepass_eq_btCaps hb hn2 hbytes]; exact hr
+
+/-- the automata that witnessed the deviations of the earlier code: `(a+?)` on "aa" now [0 1 0 1] as the reference,
+    `(\b)` and `(a)\b(b)` rejected by the build, `a*(b)` on "ab" now [0 2 1 2] as the reference -/
+theorem C03_onepass_former_witnesses_fixed :
+    (OnePass.runOnePass OnePass.exLazy #[97, 97] 4 = some (some [0, 1, 0, 1]) ∧ btCapsAnchored OnePass.exLazy #[97, 97] 0 4 = some [0, 1, 0, 1]) ∧
+    OnePass.buildFor OnePass.exWordB 4 = none ∧ OnePass.buildFor OnePass.exMidB 6 = none ∧
+    (OnePass.runOnePass OnePass.exStartLoop #[97, 98] 4 = some (some [0, 2, 1, 2]) ∧
+      btCapsAnchored OnePass.exStartLoop #[97, 98] 0 4 = some [0, 2, 1, 2]) :=
+  ⟨⟨OnePass.ex_lazy_onepass_fixed, OnePass.ex_lazy_ref⟩, OnePass.ex_wordb_onepass_fixed, OnePass.ex_midb_onepass_fixed,
+    ⟨OnePass.ex_startloop_onepass_fixed, OnePass.ex_startloop_ref⟩⟩
 
 /- non-vacuity: `(a*)` on "a" from 0 — reference and Pike VM model agree on [0 1 0 1] -/
 example : btCaps exStarGroup #[97] 0 4 = some [0, 1, 0, 1] ∧ pikeCaps exStarGroup #[97] 0 4 = some [0, 1, 0, 1] :=
   ⟨ex_mid_ref, ex_mid_pike⟩
+
+/- `at = len(h)`, fixed: `()` on "" — reference, regexp and the modelled code all report [0 0 0 0] (the code used to
+   report [0 0 -1 -1]); `(a*)` on "a" from 1: [1 1 1 1] -/
+example : btCaps exEmptyGroup #[] 0 4 = some [0, 0, 0, 0] ∧ pikeCaps exEmptyGroup #[] 0 4 = some [0, 0, 0, 0] :=
+  ⟨ex_end_ref, ex_end_pike_fixed⟩
+example : btCaps exStarGroup #[97] 1 4 = some [1, 1, 1, 1] ∧ pikeCaps exStarGroup #[97] 1 4 = some [1, 1, 1, 1] :=
+  ⟨ex_end2_ref, ex_end2_pike_fixed⟩
+
+/- non-vacuity of the one-pass theorem: `(a)(b)` builds, and `Search` on "ab" is the reference's [0 2 0 1 1 2] -/
+example (T : OnePass.Table) (hb : OnePass.buildFor OnePass.exAB 6 = some T) :
+    OnePass.search T #[97, 98] 6 = some [0, 2, 0, 1, 1, 2] := by
+  rw [C03_onepass_eq_reference hb (by decide) OnePass.bytes_ab]
+  decide
 
 end Cx.C03
